@@ -35,10 +35,10 @@ theorem allGroups_length (D : Writer.Deps) (codec : Nat) : ∀ (gms : List RgMet
   | [], _ :: _, h => by simp [AllGroups] at h
   | _ :: _, [], h => by simp [AllGroups] at h
 
-theorem rowsZip_sum : ∀ (gms : List RgMeta) (gs : List (List (List PageRec))), RowsZip gms gs →
-    (gms.map (·.numRows)).sum = (gs.map firstRows).sum
+theorem rowsZip_sum (cols : List Writer.Col) : ∀ (gms : List RgMeta) (gs : List (List (List PageRec))), RowsZip cols gms gs →
+    (gms.map (·.numRows)).sum = (gs.map (fun g => Writer.firstRecs cols (g.map pagesData))).sum
   | [], [], _ => rfl
-  | gm :: gms, g :: gs, h => by simp [h.1, rowsZip_sum gms gs h.2]
+  | gm :: gms, g :: gs, h => by simp [h.1, rowsZip_sum cols gms gs h.2]
   | [], _ :: _, h => by simp [RowsZip] at h
   | _ :: _, [], h => by simp [RowsZip] at h
 
@@ -124,13 +124,10 @@ theorem readAll_written (hne : cols ≠ []) :
   simp only [hnrg, hrgs]
   have hrows : ((FileReal.fileMetaData md).numRows : Int) = ((readerNumRows cols ops : Nat) : Int) := by
     show ((md.numRows : Nat) : Int) = _
-    rw [hf.numRows_eq, rowsZip_sum _ _ hf.rowsZip]
+    rw [hf.numRows_eq, rowsZip_sum cols _ _ hf.rowsZip]
     unfold readerNumRows
     rw [← hf.table, List.map_map]
-    congr 2
-    apply List.map_congr_left
-    intro g _
-    simp [firstRows, List.map_map, Function.comp_def]
+    rfl
   have hgroups : gs.map (groupRead cols) = readerRowGroupsOf cols ops := by
     unfold readerRowGroupsOf
     rw [← hf.table, List.map_map]
